@@ -12,7 +12,7 @@ INFO = {
             "canonical encodings: export_ksy() is called (the schema dict is captured by a ruamel.yaml stand-in) and interpreted with "
             "Kaitai semantics on the bytes. Oracle: ids appear in declaration order under the member names; every named field has the "
             "byte extent construct uses (from the reference interpreter's read log) and the scalar value construct parses; the total "
-            "extent agrees. A schema that is contradictory or omits a layout fact is reported as its own signature. non-trivial = "
+            "extent agrees. A schema that is contradictory or omits a layout fact is reported as its own signature. Const over every sub-construct that can encode its value. non-trivial = "
             "schema interpreted to the end and fields compared; distinct = (term, encoding)",
     "bounds": {"quick": {"depth": 2, "inputs": 4, "pool": 60}, "thorough": {"depth": 3, "inputs": 100, "pool": 100}},
     "trusted_base": ["mc/ksy.py (interpreter for the emitted dialect, Kaitai Struct semantics)", "mc/ref.py read log for construct's field extents",
@@ -142,6 +142,11 @@ def shapes(tier):
     out.append(["Struct", [["f0", BYTE], ["f1", ["PaddedString", ["this", "f0"], "ascii"]], ["f2", BYTE]]])
     out.append(["Struct", [["f0", BYTE], ["f1", ["Pointer", ["this", "f0"], BYTE]], ["f2", BYTE]]])
     out.append(["Struct", [[None, ["ConstB", b"MZ"]], ["f0", BYTE], [None, ["Padding", 2]], ["f1", G.I(2, False, "l")]]])
+    # constants over every sub-construct that can encode them (the schema's contents are the ENCODING, not the value)
+    from .c04 import const_over
+    for cv in const_over():
+        out.append(["Struct", [["f0", BYTE], [None, cv], ["f1", BYTE]]])
+        out.append(["Struct", [["f0", cv], ["f1", G.I(2, False, "b")]]])
     out.append(["Sequence", [["f0", BYTE], ["f1", G.I(2, False, "l")]]])
     out.append(G.I(4, True, "b"))
     out.append(["Array", 2, BYTE])
